@@ -6,6 +6,14 @@ VERIF = os.path.dirname(os.path.dirname(os.path.abspath(__file__)))
 
 # property -> (technique, level text, level note, design ref)
 CLAIMED = {
+    "C15": ("Lean 4 refinement proof (byte-level DRBG model ⊑ SP 800-90A spec, induction over histories) + correspondence run",
+            "Proved in Lean for the model: for every hash with 32-byte output, every non-empty seed and every history of generate/reseed "
+            "calls shorter than 2^31-258 operations, the model's byte stream equals the SP 800-90A Hash_DRBG stream; over-limit requests and "
+            "empty seeds are refused with the state unchanged. The model is tied to src/rand/relic_rand_hashd.c by running both on the same "
+            "histories (boundary request sizes, reseeds, 40k-call histories) and diffing byte-for-byte.",
+            "Trusted: Lean kernel (axioms propext, Classical.choice, Quot.sound); hand-written model tied by correspondence only; SHA-256 as "
+            "executable FIPS 180-4 spec (validated against md_map_sh256 in the same run); ctx->counter is an int (history bound).",
+            "DESIGN.md §5 C15"),
 }
 
 PENDING_REASON = {
